@@ -139,7 +139,7 @@ def rand_linear(rng, nout, nin):
     return M
 
 
-def rand_image(rng, ndim=None, maxext=4, xyz=False):
+def rand_image(rng, ndim=None, maxext=4, xyz=False, int_ok=True):
     from nipy.core.api import Image, AffineTransform, CoordinateSystem as CS
     if ndim is None:
         ndim = int(rng.choice([1, 2, 2, 3, 3, 3, 4]))
@@ -158,7 +158,7 @@ def rand_image(rng, ndim=None, maxext=4, xyz=False):
     A[:-1, :-1] = rand_linear(rng, nout, ndim)
     A[:-1, -1] = rng.integers(-4, 5, nout)
     A[-1, -1] = 1
-    dt = np.int64 if rng.random() < 0.1 else np.float64
+    dt = np.int64 if (rng.random() < 0.1 and int_ok) else np.float64
     cm = AffineTransform(CS(inn, str(rng.choice(["", "voxels", "in"])), dt),
                          CS(outn, str(rng.choice(["", "world", "mni"])), dt), A.astype(dt))
     return Image(data, cm)
@@ -229,6 +229,44 @@ def rand_slice_tuple(rng, shape, bad):
     if len(sl) == 1 and rng.random() < 0.5:
         return sl[0], sl            # bare (non-tuple) index
     return tuple(sl), sl
+
+
+def rand_renaming(rng, names, bad=False):
+    """renaming dict (keyword order = insertion order) and its structural feature: fresh names, or new names that are
+    OLD names of other axes (swap, 3-cycle, chain), both keyword orders; bad: unknown key / collision"""
+    n = len(names)
+    perm = [names[int(i)] for i in rng.permutation(n)]
+    fresh = [nm for nm in ["aa", "bb", "cc", "dd", "ee"] if nm not in names]
+    modes = ["fresh", "fresh"]
+    if n >= 2:
+        modes += ["swap", "swap", "chain", "chain", "mixed"]
+    if n >= 3:
+        modes += ["cycle3", "cycle3"]
+    mode = str(modes[int(rng.integers(0, len(modes)))])
+    if mode == "fresh":
+        k = int(rng.integers(1, n + 1))
+        pairs = list(zip(perm[:k], fresh))
+    elif mode == "swap":
+        pairs = [(perm[0], perm[1]), (perm[1], perm[0])]
+    elif mode == "cycle3":
+        pairs = [(perm[0], perm[1]), (perm[1], perm[2]), (perm[2], perm[0])]
+    elif mode == "chain":       # a takes over the name b, b gets a fresh name
+        pairs = [(perm[0], perm[1]), (perm[1], fresh[0])]
+        if n >= 3 and rng.random() < 0.5:
+            pairs = [(perm[0], perm[1]), (perm[1], perm[2]), (perm[2], fresh[0])]
+    else:                        # swap plus a fresh name
+        pairs = [(perm[0], perm[1]), (perm[1], perm[0])] + ([(perm[2], fresh[0])] if n >= 3 else [])
+    if bad:
+        if rng.random() < 0.5:
+            pairs.append(("nosuch", "zz"))
+            mode += "+unknown-key"
+        elif n >= 2:
+            pairs = [(perm[0], perm[1])]      # collision: two axes would be called perm[1]
+            mode = "collision"
+    if rng.random() < 0.5:
+        pairs = pairs[::-1]
+        mode += ",reversed-keywords"
+    return dict(pairs), mode
 
 
 class Spy:
@@ -312,19 +350,11 @@ def gen_op(rng, img, spy):
                     feat="none" if arg is None else "names" if isinstance(arg[0], str) else "ints", descr="%s(%r)" % (kind, arg))
     if kind in ("rename_axes", "rename_ref"):
         ax = kind == "rename_axes"
-        names = list(img.axes.coord_names if ax else img.reference.coord_names)
-        k = int(rng.integers(1, len(names) + 1))
-        keys = [names[int(i)] for i in rng.permutation(len(names))[:k]]
-        fresh = [nm for nm in ["aa", "bb", "cc", "dd", "ee"] if nm not in names]
-        d = dict(zip(keys, fresh))
-        if bad:
-            if rng.random() < 0.5:
-                d["nosuch"] = "zz"
-            elif len(names) > 1:
-                d[keys[0]] = [nm for nm in names if nm != keys[0]][0]
+        names = [str(n) for n in (img.axes.coord_names if ax else img.reference.coord_names)]
+        d, feat = rand_renaming(rng, names, bad)
         f = (lambda: img.renamed_axes(**d)) if ax else (lambda: img.renamed_reference(**d))
         return dict(kind=kind, cop=lambda o: "%s %s" % ("ORenameAxes" if ax else "ORenameRef", cnn(d)), call=f,
-                    rho=(None if ax else dict(d)), feat="dict", descr="%s(%r)" % (kind, d))
+                    rho=(None if ax else dict(d)), feat=feat, descr="%s(**%r)" % ("renamed_axes" if ax else "renamed_reference", d))
     if kind == "rollimg":
         a = axis_ids(rng, img)
         s = axis_ids(rng, img) if rng.random() < 0.7 else 0
@@ -881,6 +911,271 @@ def section_as_xyz(ck, rng):
     ck.section("as_xyz", cases=len(terms))
 
 
+class AxSpy:
+    """records (axis_id, (in_dim, out_dim)) of every io_axis_indices call made by nipy (oracle values for the model)"""
+
+    def __init__(self):
+        import nipy.core.reference.coordinate_map as cmod
+        import nipy.core.image.image_list as ilmod
+        self.mods = [cmod, ilmod]
+        self.orig = [m.io_axis_indices for m in self.mods]
+        self.calls = []
+
+    def __enter__(self):
+        def mk(f):
+            def w(cm, axis_id, *a, **k):
+                r = f(cm, axis_id, *a, **k)
+                self.calls.append((axis_id, r))
+                return r
+            return w
+        for m, f in zip(self.mods, self.orig):
+            m.io_axis_indices = mk(f)
+        return self
+
+    def __exit__(self, *a):
+        for m, f in zip(self.mods, self.orig):
+            m.io_axis_indices = f
+
+
+def coupled_image(rng, nd):
+    """integer affine in which the listed axis may leak into kept world axes: sheared / oblique / zero TR / diagonal"""
+    from nipy.core.api import Image, AffineTransform, CoordinateSystem as CS
+    shape = tuple(int(v) for v in rng.integers(1, 4, nd))
+    if rng.random() < 0.7:
+        shape = tuple(max(2, v) for v in shape)
+    N = int(np.prod(shape))
+    data = (rng.permutation(N) + 1.0).reshape(shape)
+    nout = nd + (1 if rng.random() < 0.15 else 0)
+    inn = [str(v) for v in rng.permutation(IN_POOL)][:nd]
+    outn = [str(v) for v in rng.permutation(OUT_POOL)][:nout]
+    A = np.zeros((nout + 1, nd + 1), dtype=np.int64)
+    rows = rng.permutation(nout)[:nd]
+    for j, r_ in enumerate(rows):
+        A[r_, j] = int(rng.choice([-4, -3, 3, 4]))
+    style = str(rng.choice(["diagonal", "sheared", "sheared", "oblique", "oblique", "zero-TR", "zero-TR+shear"]))
+    if style in ("sheared", "zero-TR+shear"):      # one axis leaks into another world coordinate
+        j = int(rng.integers(0, nd))
+        others = [r_ for r_ in range(nout) if r_ != rows[j]]
+        if others:
+            A[others[int(rng.integers(0, len(others)))], j] = int(rng.choice([-1, 1, 2]))
+    if style == "oblique":                          # every axis leaks a little into every coordinate
+        A[:-1, :-1] += rng.integers(-1, 2, (nout, nd))
+    if style in ("zero-TR", "zero-TR+shear"):
+        j = int(rng.integers(0, nd))
+        A[rows[j], j] = 0
+    A[:-1, -1] = rng.integers(-5, 6, nout)
+    A[-1, -1] = 1
+    return Image(data, AffineTransform(CS(inn, "voxels"), CS(outn, "world"), A.astype(float))), style
+
+
+def section_image_list(ck, rng):
+    """ImageList.from_image / __getitem__ / iter_axis listing: EVERY element against the model and the original"""
+    from nipy.core.api import Image, ImageList
+    from nipy.core.image import image as imod
+    from nipy.core.reference.coordinate_map import AxisError
+    terms, metas = [], []
+    nimg = ck.n(45, 400)
+    with AxSpy() as axspy:
+        for c in range(nimg):
+            nd = int(rng.choice([2, 3, 3, 4]))
+            img, style = coupled_image(rng, nd)
+            snap = snapshot(img)
+            otab = dict(world_table(img))
+            ids = list(range(-nd, nd)) + [str(n) for n in img.axes.coord_names] + [str(n) for n in img.reference.coord_names]
+            pick = [ids[int(i)] for i in rng.permutation(len(ids))[:ck.n(3, 5)]]
+            for axis in pick:
+                # plain listing with iter_axis: the union of the items' tables is the original's table
+                try:
+                    with warnings.catch_warnings():
+                        warnings.simplefilter("ignore")
+                        items = list(imod.iter_axis(img, axis))
+                except AxisError:
+                    items = None
+                except Exception as ex:   # noqa
+                    ck.fail("iter_axis/unexpected-exception", "list(iter_axis(img, %r)) raised %s: %s" % (axis, type(ex).__name__, ex),
+                            {"image": rimg(img), "axis": axis})
+                    items = None
+                if items is not None:
+                    msg = union_check(items, otab, None)
+                    if msg:
+                        ck.fail("iter_axis/%s/%s" % msg[:2], "list(iter_axis(img, %r)) on a %s affine: %s" % (axis, style, msg[2]),
+                                {"image": rimg(img), "axis": axis, "style": style, "element": msg[3]})
+                for dropout in (False, True):
+                    n0 = len(axspy.calls)
+                    try:
+                        with warnings.catch_warnings():
+                            warnings.simplefilter("ignore")
+                            ilist = ImageList.from_image(img, axis=axis, dropout=dropout)
+                        e = None
+                    except Exception as ex:   # noqa
+                        ilist, e = None, ex
+                    calls = axspy.calls[n0:]
+                    if snapshot(img) != snap:
+                        ck.fail("image_list/operand-mutated", "ImageList.from_image changed its operand", {"image": rimg(img), "axis": axis})
+                    if not calls:
+                        ck.fail("image_list/no-io_axis_indices-call", "from_image did not resolve the axis through io_axis_indices", {"axis": axis})
+                        continue
+                    in_ax, out_ax = calls[0][1]
+                    dpairs = [cl[1] for cl in calls[1:]]
+                    feat = "%s,dropout=%s" % (style, dropout)
+                    if e is not None:
+                        if isinstance(e, (AxisError, ValueError)):
+                            # refusal: the model must refuse the element at which nipy stopped
+                            k = max(len(dpairs) - 1, 0)
+                            dp = dpairs[k] if dpairs else (None, None)
+                            kind = "IAxis" if isinstance(e, AxisError) else "IValue"
+                            terms.append("list_item_agrees %s %s %s %s %s (%s, %s) (IErr %s)" % (
+                                cimg(img), copt(in_ax, cnat), copt(out_ax, cnat), cbool(dropout), cnat(k),
+                                copt(dp[0], cnat), copt(dp[1], cnat), kind))
+                            metas.append({"image": rimg(img), "axis": axis, "dropout": dropout, "element": k, "impl": repr(e)})
+                            ck.count(("ilist", c, axis, dropout), nontrivial=False, bucket="image_list:refused")
+                        else:
+                            ck.fail("image_list/unexpected-exception", "ImageList.from_image(img, %r, dropout=%s) raised %s: %s"
+                                    % (axis, dropout, type(e).__name__, e), {"image": rimg(img), "axis": axis, "dropout": dropout})
+                        continue
+                    els = ilist.list
+                    if len(els) != img.shape[in_ax]:
+                        ck.fail("image_list/length", "len(ImageList.from_image(img, %r)) = %d, axis extent %d" % (axis, len(els), img.shape[in_ax]),
+                                {"image": rimg(img), "axis": axis})
+                    dropped = img.reference.coord_names[out_ax] if (dropout and out_ax is not None) else None
+                    msg = union_check(els, otab, dropped)
+                    if msg:
+                        ck.fail("image_list/%s/%s" % msg[:2], "ImageList.from_image(img, %r, dropout=%s) on a %s affine: %s"
+                                % (axis, dropout, style, msg[2]),
+                                {"image": rimg(img), "axis": axis, "dropout": dropout, "style": style, "element": msg[3],
+                                 "element_image": rimg(els[msg[3]]) if msg[3] is not None else None})
+                    # ImageList.__getitem__: integers (also negative) return the element, slices a list of the same elements
+                    L = len(els)
+                    okget = all(ilist[j] is els[j] for j in range(-L, L))
+                    for sl in (slice(None, None, -1), slice(1, None, 2), slice(-2, None)):
+                        sub = ilist[sl]
+                        okget = okget and isinstance(sub, ImageList) and len(sub.list) == len(els[sl]) and \
+                            all(a is b for a, b in zip(sub.list, els[sl]))
+                    if not okget:
+                        ck.fail("image_list/getitem", "ImageList.__getitem__ does not return the listed elements", {"image": rimg(img), "axis": axis})
+                    for k, el in enumerate(els):
+                        if not (isinstance(el, Image) and is_int_array(el.affine)):
+                            continue
+                        dp = dpairs[k] if (dropped is not None and k < len(dpairs)) else (None, None)
+                        terms.append("list_item_agrees %s %s %s %s %s (%s, %s) (IOk %s)" % (
+                            cimg(img), copt(in_ax, cnat), copt(out_ax, cnat), cbool(dropout), cnat(k),
+                            copt(dp[0], cnat), copt(dp[1], cnat), cimg(el)))
+                        metas.append({"image": rimg(img), "axis": axis, "dropout": dropout, "element": k, "style": style, "impl": rimg(el)})
+                        ck.count(("ilist", c, axis, dropout, k), nontrivial=True, bucket="image_list:%s:element%s" % (feat, "0" if k == 0 else ">0"))
+    if ck.build.ok:
+        res = ck.coq_bools(HDR, terms, shard=150, name="ilist")
+        ck.cov["traces_validated_against_impl"] += len(res)
+        for ok, m in zip(res, metas):
+            if not ok:
+                ck.fail("model-vs-impl/image_list/element%s" % ("0" if m["element"] == 0 else ">0"),
+                        "model and implementation disagree on element %d of ImageList.from_image(img, %r, dropout=%s)"
+                        % (m["element"], m["axis"], m["dropout"]), m)
+                break
+    ck.section("image_list", images=nimg, elements=len(terms))
+
+
+def union_check(elements, otab, dropped):
+    """all elements together: every value of the original exactly once, each at its original named world point
+    (minus the dropped coordinate).  -> None or (failure, feature, text, element index)"""
+    seen = set()
+    for k, el in enumerate(elements):
+        feat = "element0" if k == 0 else "element>0"
+        d = np.asarray(el.get_fdata())
+        if d.ndim != el.coordmap.ndims[0]:
+            return ("shape-vs-coordmap-input-dimension", feat, "element %d has %d data axes, coordmap %d inputs" % (k, d.ndim, el.coordmap.ndims[0]), k)
+        for v, w in world_table(el):
+            if v in seen:
+                return ("value-duplicated", feat, "value %g occurs twice in the list" % v, k)
+            seen.add(v)
+            if v not in otab:
+                return ("value-invented", feat, "value %g of element %d is not in the image" % (v, k), k)
+            want = frozenset((n, x) for n, x in otab[v] if n != dropped)
+            if w != want:
+                return ("world-position-changed", feat, "value %g: the image has it at %s, element %d puts it at %s"
+                        % (v, sorted(want), k, sorted(w)), k)
+    if seen != set(otab):
+        return ("values-lost", "all-elements", "%d of %d values are in no element" % (len(set(otab) - seen), len(otab)), None)
+    return None
+
+
+def section_renamings(ck, rng):
+    """renamed_axes / renamed_reference with new names that are OLD names of other axes: every swap, 3-cycle and chain,
+    both keyword orders, plus fresh names"""
+    terms, metas = [], []
+    for nd in range(1, ck.n(4, 5)):
+        for rep in range(ck.n(1, 3)):
+            img = rand_image(rng, ndim=nd, maxext=3, int_ok=(rep == 2))
+            for ax in (True, False):
+                names = [str(n) for n in (img.axes.coord_names if ax else img.reference.coord_names)]
+                fresh = [nm for nm in ["aa", "bb", "cc"] if nm not in names]
+                cands = [[(names[0], fresh[0])]]
+                for a, b in itertools.permutations(names, 2):
+                    cands.append([(a, b), (b, a)])
+                    cands.append([(a, b), (b, fresh[0])])
+                    cands.append([(a, b)])                         # collision: refused
+                for a, b, c_ in itertools.permutations(names, 3):
+                    cands.append([(a, b), (b, c_), (c_, a)])
+                    cands.append([(a, b), (b, c_), (c_, fresh[0])])
+                if len(cands) > 40:
+                    cands = [cands[int(i)] for i in sorted(rng.permutation(len(cands))[:40])]
+                for pairs in cands:
+                    for order in (pairs, pairs[::-1]):
+                        d = dict(order)
+                        what = "%s(**%r)" % ("renamed_axes" if ax else "renamed_reference", d)
+                        snap = snapshot(img)
+                        try:
+                            r = img.renamed_axes(**d) if ax else img.renamed_reference(**d)
+                            e = None
+                        except Exception as ex:   # noqa
+                            r, e = None, ex
+                        if snapshot(img) != snap:
+                            ck.fail("%s/operand-mutated" % what.split("(")[0], "%s changed its operand" % what, {"image": rimg(img), "renaming": order})
+                        cop = "%s %s" % ("ORenameAxes" if ax else "ORenameRef", cnn(d))
+                        kind = "renamed_axes" if ax else "renamed_reference"
+                        struct = "collision" if len(pairs) == 1 and pairs[0][1] in names else \
+                            "fresh" if len(pairs) == 1 else "swap" if len(pairs) == 2 and pairs[1][1] == pairs[0][0] else \
+                            "cycle3" if len(pairs) == 3 and pairs[2][1] == pairs[0][0] else "chain"
+                        if e is not None:
+                            k = errkind(e, kind)
+                            if k is None:
+                                ck.fail("%s/unexpected-exception/%s" % (kind, struct), "%s on names %r raised %s: %s" % (what, names, type(e).__name__, e),
+                                        {"image": rimg(img), "renaming": order})
+                                continue
+                            terms.append("step_agrees %s (%s) (IErr %s)" % (cimg(img), cop, k))
+                            ck.count(("ren", nd, rep, ax, tuple(order)), nontrivial=False, bucket="renamings:refused")
+                        else:
+                            want = [d.get(n, n) for n in names]
+                            got = [str(n) for n in (r.axes.coord_names if ax else r.reference.coord_names)]
+                            msg = check_tracks(r, img, None if ax else d)
+                            if msg is None and got != want:
+                                msg = "names-not-renamed-simultaneously"
+                            if msg:
+                                ck.fail("%s/%s/%s" % (kind, msg, struct), "%s on names %r gives names %r (expected %r): every value must sit at the same "
+                                        "position under the NEW name of each coordinate" % (what, names, got, want),
+                                        {"image": rimg(img), "renaming": order, "result": rimg(r), "expected_names": want})
+                            terms.append("step_agrees %s (%s) (IOk %s)" % (cimg(img), cop, cimg(r)))
+                            ck.count(("ren", nd, rep, ax, tuple(order)), nontrivial=True, bucket="renamings:%s:%s" % (kind, struct))
+                        metas.append({"image": rimg(img), "op": what})
+    if ck.build.ok:
+        res = ck.coq_bools(HDR, terms, shard=200, name="ren")
+        ck.cov["traces_validated_against_impl"] += len(res)
+        for ok, m in zip(res, metas):
+            if not ok:
+                ck.fail("model-vs-impl/%s" % m["op"].split("(")[0], "model and implementation disagree on %s" % m["op"], m)
+                break
+    ck.section("renamings", cases=len(terms))
+
+
+def guarded(ck, name, f, *args):
+    """a crash inside one section is a structured failure of that section; the other sections still run"""
+    import traceback
+    try:
+        f(ck, *args)
+    except Exception as ex:   # noqa
+        ck.fail("%s/section-exception" % name, "section %s raised %s: %s" % (name, type(ex).__name__, ex),
+                {"kind": "harness-section-exception", "section": name, "trace": traceback.format_exc()[-3000:]}, found_input=False)
+
+
 def run(ck):
     ck.cov["rule"] = ("images of 1..4 dims, extents 1..4, data = distinct integers, integer affines (permutation/flip/shear/zero column/"
                       "general, 0..2 more outputs than inputs, float64 and int64 systems, a name shared by an input and an output axis in 15%); "
@@ -889,12 +1184,14 @@ def run(ck):
                       "differs from the operand in shape, data or affine; distinct by (operation, operand image)")
     ck.coq_build(extra_dirs=["C01"])
     ck.overlay()
-    section_slice_indices(ck)
-    section_input_axis_index(ck, ck.rng("iai"))
-    section_exhaustive_slices(ck, ck.rng("exhaustive"))
-    section_all_orders(ck, ck.rng("orders"))
-    section_as_xyz(ck, ck.rng("asxyz"))
-    section_programs(ck, ck.rng("programs"))
+    guarded(ck, "slice.indices", section_slice_indices)
+    guarded(ck, "input_axis_index", section_input_axis_index, ck.rng("iai"))
+    guarded(ck, "exhaustive-slices", section_exhaustive_slices, ck.rng("exhaustive"))
+    guarded(ck, "all-orders", section_all_orders, ck.rng("orders"))
+    guarded(ck, "renamings", section_renamings, ck.rng("renamings"))
+    guarded(ck, "image_list", section_image_list, ck.rng("imagelist"))
+    guarded(ck, "as_xyz", section_as_xyz, ck.rng("asxyz"))
+    guarded(ck, "programs", section_programs, ck.rng("programs"))
     ck.trust.append("oracles: NumPy basic indexing and np.transpose (modelled by NdIndex.gather along explicit index maps; sampled on every case); "
                     "nibabel.io_orientation (its output column, recorded from the running call, is an argument of the model's rollimg/"
                     "iter_axis/as_xyz_image); spaces.xyz_affine / xyz_order outcomes are arguments of the model's as_xyz_image")
